@@ -832,10 +832,29 @@ def ownership_obligations(ctx):
     return bad
 
 
+def consumer_instances(ctx):
+    """`Properties/C01Consumers.lean` (RespectsDenote instances about the models of C02, C05, C10, C11, C14) is built and
+    audited apart from the property file: when one of those models changes, the instances are reported as stale — a
+    maintenance message, loud in the evidence and on stderr — and the C01 check itself still runs"""
+    from vlib import core
+    res = core.audit(['SkNet.Properties.C01Consumers'], [])
+    if res['problems']:
+        msg = 'Properties/C01Consumers.lean does not build / audit against the current models of the other properties: ' + \
+              str(res['problems'])[:1500]
+        ctx.extra['consumer_instances'] = {'built': False, 'problems': res['problems']}
+        ctx.note('STALE: ' + msg)
+        log('C01 WARNING (not a verdict): ' + msg)
+        return
+    ctx.extra['consumer_instances'] = {'built': True, 'theorems': res['theorems'], 'axioms': sorted({a for v in res['axioms'].values() for a in v})}
+    ctx.extra['generated_obligations'] = ctx.extra.get('generated_obligations', 0) + res['obligations']
+    ctx.extra['generated_discharged'] = ctx.extra.get('generated_discharged', 0) + res['discharged']
+
+
 def run(ctx):
     corpus_cases(ctx)
     evaluate(ctx, container_cases(ctx, CONTAINERS[ctx.tier]))
     ownership_obligations(ctx)
+    consumer_instances(ctx)
     stats = relation_cases(ctx, PER_ENTRY[ctx.tier])
     check_liveness(ctx, stats)
 
